@@ -2554,7 +2554,24 @@ _FUNC_IMPL = {
     _np.stack: sym_stack,
 }
 
+def sym_invert(a):
+    """~a / np.logical_not(a) of a boolean array: elementwise negation (integers: outside the model)"""
+    a = as_symarr(a)
+    if a.kind != "bool":
+        raise Unsupported("bitwise invert of a non-boolean symbolic array")
+    return _elementwise1(a, lambda x: z3.Not(x), "bool")
+
+
+def sym_logical_not(a):
+    a = as_symarr(a)
+    if a.kind == "bool":
+        return sym_invert(a)
+    return _elementwise1(a, lambda x: x == 0, "bool")
+
+
 _UFUNC_IMPL = {
+    _np.invert: sym_invert,
+    _np.logical_not: sym_logical_not,
     _np.add: lambda a, b: _elementwise2(a, b, lambda x, y: x + y),
     _np.subtract: lambda a, b: _elementwise2(a, b, lambda x, y: x - y),
     _np.multiply: lambda a, b: _elementwise2(a, b, lambda x, y: x * y),
